@@ -88,6 +88,7 @@ def run(chk: Check) -> None:
     _submessage_presence(chk, schema, pf, msgs)
     _write_conditions(chk, schema, pf, msgs)
     chk.floor("R02.2", "writer functions scanned for refusals", writers_total(chk, "R02.2"), 8)
+    scalars_pass_through(chk, "R02.2")
     _writer_agreement(chk, schema, pf, msgs)
     _reader_agreement(chk, schema, pf, msgs)
     _enums(chk, schema, pf)
@@ -1241,3 +1242,66 @@ def _presence_flag(chk: Check, pf: ProtoFlow) -> None:
         chk.ob("R02.3", "ByteInterval.has_address@%s:sole-presence-test" % r.f.qualname, ok, r.loc,
                "whether a loaded interval has an address must be decided by the has_address field "
                "alone, got %s" % unparse(par)[:70], 2)
+
+
+def scalars_pass_through(chk: Check, rule: str) -> int:
+    """what a writer stores in a field is the attribute's value and what a reader hands to the
+    model is the field's value: no arithmetic in between (masking, sign conversion, scaling).  A
+    pair of inverse conversions keeps save/load the identity and still writes a file no other
+    implementation reads the same way."""
+    from .c01 import _is_reader
+    ARITH = (ast.BitAnd, ast.BitOr, ast.BitXor, ast.LShift, ast.RShift, ast.Sub, ast.Mult, ast.FloorDiv,
+             ast.Div, ast.Pow, ast.Add, ast.Mod)
+    n = 0
+    for f in chk.repo.all_functions():
+        g: Optional[FuncInfo] = f
+        role = None
+        while g is not None:
+            if g.name in ("_to_protobuf", "_write_protobuf_aux_data"):
+                role = "writer"
+            g = g.outer
+        if role is None and _is_reader(f) and f.name not in ("load_protobuf_file",):
+            role = "reader"
+        if role is None:
+            continue
+        n += 1
+        tainted: Set[str] = {p_ for p_ in f.param_names() if p_ in ("self",) or p_.startswith("proto")}
+        if f.outer is not None:
+            tainted |= {p_ for p_ in f.outer.param_names() if p_ in ("self",) or p_.startswith("proto")}
+        for _ in range(4):
+            for st in ast.walk(f.node):
+                tgts: List[ast.AST] = []
+                val = None
+                if isinstance(st, ast.Assign):
+                    tgts, val = list(st.targets), st.value
+                elif isinstance(st, (ast.AnnAssign, ast.AugAssign)) and st.value is not None:
+                    tgts, val = [st.target], st.value
+                elif isinstance(st, ast.For):
+                    tgts, val = [st.target], st.iter
+                if val is not None and any(isinstance(x, ast.Name) and x.id in tainted for x in ast.walk(val)):
+                    for t in tgts:
+                        for x in ast.walk(t):
+                            if isinstance(x, ast.Name) and not isinstance(x.ctx, ast.Load):
+                                tainted.add(x.id)
+        in_raise = {id(x) for r in ast.walk(f.node) if isinstance(r, ast.Raise) for x in ast.walk(r)}
+        for x in walk_no_nested(f.node):
+            op = None
+            operands: List[ast.AST] = []
+            if isinstance(x, ast.BinOp) and isinstance(x.op, ARITH):
+                op, operands = x.op, [x.left, x.right]
+            elif isinstance(x, ast.AugAssign) and isinstance(x.op, ARITH):
+                op, operands = x.op, [x.target, x.value]
+            elif isinstance(x, ast.UnaryOp) and isinstance(x.op, (ast.Invert, ast.USub)):
+                op, operands = x.op, [x.operand]
+            if op is None or id(x) in in_raise:
+                continue
+            if isinstance(op, (ast.Add, ast.Mod)) and any(
+                    isinstance(o, (ast.Constant, ast.JoinedStr)) and isinstance(getattr(o, "value", ""), str) for o in operands):
+                continue        # text
+            if not any(isinstance(y, ast.Name) and y.id in tainted for o in operands for y in ast.walk(o)):
+                continue
+            chk.saw(f)
+            chk.ob(rule, "%s:scalar-passthrough(%s)" % (f.qualname, unparse(x)[:40]), False, f.loc(x),
+                   "%s computes with a value on its way %s (%s): fields carry the attribute values themselves"
+                   % (f.qualname, "into the message" if role == "writer" else "out of the message", unparse(x)[:60]), 2)
+    return n
